@@ -291,16 +291,16 @@ Proof.
   apply N.eqb_eq in H. subst x. reflexivity.
 Qed.
 
-Lemma classify_cases t :
-  match classify t with
+Lemma classify_cases b t :
+  match classify_gen b t with
   | KAbs => prefixb [SL] t = true /\ is_home t = false
   | KHome => prefixb [SL] t = false /\ is_home t = true
   | KRel | KBare => prefixb [SL] t = false /\ is_home t = false
   | _ => True
   end.
 Proof.
-  unfold classify. fold (is_home t).
-  destruct (infixb s_url t); [exact I|].
+  unfold classify_gen. fold (is_home t).
+  destruct (b && infixb s_url t); [exact I|].
   destruct (prefixb [c_dollar] t); [exact I|].
   destruct (prefixb [SL] t) eqn:Ea; [split; [reflexivity|apply abs_not_home; exact Ea]|].
   destruct (is_home t); [auto|].
@@ -308,14 +308,21 @@ Proof.
   match goal with |- context [if ?b then KRel else KBare] => destruct b end; auto.
 Qed.
 
-(* a spelling the code treats as a path: not empty after rstrip, not URL-, variable- or ~user-shaped *)
-Definition pathkind (t : str) : bool :=
-  match classify t with KUrl | KVar | KUserHome => false | _ => true end.
-Definition pathlike (p : str) : bool :=
-  nonempty (rstrip [SL] p) && pathkind (rstrip [SL] p).
+(* a token the code treats as a path: not variable- or ~user-shaped, and - where URLs are
+   recognised, i.e. for command words - not containing "://" *)
+Definition pathkind (allow_url : bool) (t : str) : bool :=
+  match classify_gen allow_url t with KUrl | KVar | KUserHome => false | _ => true end.
+(* redirect targets (and redirect patterns): a target is always a file name, "/" is the root *)
+Definition pathlike (p : str) : bool := pathkind false (strip_target p).
 (* for command words: only tokens the code resolves (absolute, ~/, or containing a slash) *)
 Definition wordpath (t : str) : bool :=
   match classify t with KAbs | KHome | KRel => true | _ => false end.
+
+Lemma nf_all_slash home cwd l : all_slash l = true -> nf home cwd (SL :: l) = nf home cwd [SL].
+Proof.
+  intro H. unfold nf. rewrite !full_abs. apply norm_runs.
+  rewrite (ctx_dslash [] l), (ctx_dslash [] []). rewrite runs_all_slash by exact H. reflexivity.
+Qed.
 
 Section Agree.
   Variable resolve1 : str -> str.
@@ -323,31 +330,37 @@ Section Agree.
   Variable home : str.
   Variable lex : lexical resolve1 resolve2.
 
-  Lemma expand_nf cwd force t : pathkind t = true -> (force = true \/ wordpath t = true) ->
+  Lemma expand_nf cwd force t : pathkind (negb force) t = true -> (force = true \/ wordpath t = true) ->
     expand_token resolve1 resolve2 home cwd force t = nf home cwd t.
   Proof.
     destruct lex as [L1 L2]. unfold pathkind, wordpath, expand_token, nf, full.
-    pose proof (classify_cases t) as C.
-    destruct (classify t); try discriminate; intros _ Hf.
+    pose proof (classify_cases (negb force) t) as C.
+    destruct (classify_gen (negb force) t) eqn:K; try discriminate; intros _ Hf.
     - destruct C as [Ha Hh]. rewrite Hh. unfold pjoin. rewrite Ha. apply L1.
     - destruct C as [Ha Hh]. rewrite Hh. apply L1.
     - destruct C as [Ha Hh]. rewrite Hh. apply L2.
-    - destruct C as [Ha Hh]. rewrite Hh. destruct Hf as [->|Hf]; [apply L2|discriminate].
+    - destruct C as [Ha Hh]. rewrite Hh. destruct Hf as [->|Hf]; [apply L2|].
+      destruct force; [apply L2|]. unfold classify in Hf. cbn [negb] in K. rewrite K in Hf. discriminate.
   Qed.
 
   Lemma normalize_path_nf cwd p : pathlike p = true ->
     normalize_path resolve1 resolve2 home cwd p = nf home cwd p.
   Proof.
-    unfold pathlike, normalize_path. intro H. apply andb_true_iff in H. destruct H as [Hne Hk].
+    unfold pathlike, normalize_path. intro Hk.
     rewrite expand_nf by auto.
-    destruct (rstrip_split p) as [l [E Hl]]. rewrite E at 2.
-    symmetry. apply nf_strip; auto. destruct (rstrip [SL] p); [discriminate|discriminate].
+    destruct (rstrip_split p) as [l [E Hl]]. unfold strip_target in *.
+    destruct (rstrip [SL] p) as [|x t] eqn:R.
+    - cbn [app] in E. subst l. destruct p as [|y p]; [reflexivity|].
+      cbn [nonempty negb andb]. cbn [all_slash forallb] in Hl. apply andb_true_iff in Hl.
+      destruct Hl as [Hy Hl]. apply N.eqb_eq in Hy. subst y. symmetry. apply nf_all_slash; exact Hl.
+    - cbn [nonempty negb andb]. rewrite andb_false_r. rewrite E.
+      symmetry. apply nf_strip; auto. discriminate.
   Qed.
 
   Lemma normalize_token_nf cwd t : wordpath t = true ->
     normalize_token resolve1 resolve2 home cwd t = nf home cwd t.
   Proof.
     intro H. unfold normalize_token. apply expand_nf; auto.
-    unfold wordpath, pathkind in *. destruct (classify t); auto.
+    unfold wordpath, pathkind, classify in *. cbn [negb]. destruct (classify_gen true t); auto.
   Qed.
 End Agree.
